@@ -22,6 +22,7 @@ struct TClock { int seq = 0; };
 struct TimerRcv {
   TItem* it; TClock* k; kit::FreeCtl* ctl; inplace_stop_token tok{};
   void sig(char h) noexcept {
+    vmc::publish();
     ++it->count; it->how = h; it->when = vmc::now(); it->order = k->seq++;
     vmc::check(it->count == 1, "C07,C01", "completed-twice", "timer operation completed more than once");
     if (ctl) ctl->free_now();   // the operation is freed at completion: a context that kept a reference faults
